@@ -5,6 +5,7 @@ package wm
 import (
 	"verifsim/internal/core"
 	"verifsim/internal/findings"
+	"verifsim/internal/mach"
 )
 
 // trigger is the executable part of an open known finding of the whole-machine
@@ -16,7 +17,103 @@ type trigger struct {
 	match func(c *core.Case, f *features, class string) bool
 }
 
-var triggers []trigger
+func isMismatch(class string) bool {
+	return class == core.RegMismatch || class == core.MemMismatch ||
+		class == "shadow:"+core.RegMismatch || class == "shadow:"+core.MemMismatch ||
+		class == "exit:"+core.RegMismatch || class == "exit:"+core.MemMismatch
+}
+
+var wmProps = []string{"C01", "C03", "C04", "C05", "C07", "C09", "C10", "C12"}
+
+// The trigger regions are deliberately expressed in program terms (what the
+// reference executes), never in terms of what the machine did.
+var triggers = []trigger{
+	{
+		// MVP-6.0's flush (cpu.go, "TODO Same checks as in MVP 6.1") resets every
+		// execute unit and cleans the buses without looking at instruction age:
+		// OLDER work still in flight on another unit is dropped.
+		id: "KF-W1", props: wmProps,
+		match: func(c *core.Case, f *features, class string) bool {
+			return c.Cfg.V == mach.MVP60 && c.Cfg.EU >= 2 && f.redirects >= 1 && isMismatch(class)
+		},
+	},
+	{
+		// MVP-4..6.3: a store that misses the cache waits on the write bus / in a
+		// write unit (MVP-4/5: behind earlier stores; MVP-6.x: for the whole memory latency); a load of that line issued meanwhile (before or
+		// after) reads / caches stale memory, and the stale line is written back
+		// over the store at the end of the run. Memory dependences are not tracked.
+		id: "KF-W2", props: wmProps,
+		match: func(c *core.Case, f *features, class string) bool {
+			v := c.Cfg.V
+			return v >= mach.MVP4 && v <= mach.MVP63 && f.conflictSameLine && isMismatch(class)
+		},
+	},
+	{
+		// MVP-6.1+: instructions in the shadow of a taken conditional branch whose
+		// operand is slow start executing; register writes are rolled back from
+		// MVP-6.2 on (6.2 with one slot per register, so an older uncommitted write
+		// to the same register is lost), stores are never rolled back.
+		id: "KF-W3", props: wmProps,
+		match: func(c *core.Case, f *features, class string) bool {
+			v := c.Cfg.V
+			if v < mach.MVP61 || f.takenBranches == 0 || !isMismatch(class) {
+				return false
+			}
+			switch v {
+			case mach.MVP61:
+				return f.shadowHasWork
+			case mach.MVP62:
+				return f.shadowHasWork && (f.regRewrittenAroundBranch || f.shadowHasStore)
+			}
+			return f.shadowHasStore
+		},
+	},
+	{
+		// MVP-6.1+ with two or more units: a conditional branch waiting for a slow
+		// operand (forwarded from a load) lets younger instructions run ahead; one
+		// that raises an error (div/rem by zero, undefined label) fails the run at
+		// once, one that redirects fetch (j/jal/jalr) derails it.
+		id: "KF-W7", props: wmProps,
+		match: func(c *core.Case, f *features, class string) bool {
+			return c.Cfg.V >= mach.MVP61 && c.Cfg.Parallelism() >= 2 && f.takenBranches >= 1 && f.shadowHasTrap
+		},
+	},
+	{
+		// MVP-6.3/7.x/8: a load and a younger writer of the same register are both
+		// renamed; when a commit/rollback (conditional branch) or the end of the run
+		// falls between their completions, the slower load's value lands last.
+		id: "KF-W4", props: wmProps,
+		match: func(c *core.Case, f *features, class string) bool {
+			return c.Cfg.V >= mach.MVP63 && f.loadDestOverwritten && isMismatch(class)
+		},
+	},
+	{
+		// MVP-7.0/7.1: a pipeline flush cancels in-flight cache requests
+		// (cc.flush resets the read/write coroutines) while the MSI directory still
+		// holds their pending commands and line locks: later requests find an
+		// "invalid state", unlock a lock they do not hold, or wait forever.
+		id: "KF-W5", props: wmProps,
+		match: func(c *core.Case, f *features, class string) bool {
+			v := c.Cfg.V
+			return (v == mach.MVP70 || v == mach.MVP71) && c.Cfg.Cores >= 2 && f.loads+f.stores >= 2 && f.redirects >= 1
+		},
+	},
+	{
+		// MVP-7.1/8 with two or more cores: two memory accesses in flight on
+		// different cache controllers (also one of them on the wrong path) can
+		// deadlock on the directory / shared L3 or hit "invalid state"; the
+		// eviction-avoidance of 7.1 and the L3 layer built on it are the least
+		// finished parts.
+		id: "KF-W6", props: wmProps,
+		match: func(c *core.Case, f *features, class string) bool {
+			n := f.loads + f.stores
+			if f.shadowHasMem {
+				n++
+			}
+			return (c.Cfg.V == mach.MVP80 || c.Cfg.V == mach.MVP71) && c.Cfg.Cores >= 2 && n >= 2
+		},
+	},
+}
 
 // matchTrigger returns the id of the first OPEN known finding of property prop
 // whose trigger holds for c, or "".
